@@ -454,6 +454,56 @@ Fixpoint seq_run (k : consumer) (limit max_fails fails : Z) (qs : list (bool * n
                       (st, f') :: seq_run k limit max_fails f' r
   end.
 
+(* ---- chunked request bodies on the wire (RFC 9112 7.1, as net/http's chunkedReader decodes them) ----
+   A chunk is a size line — hex digits (any case, leading zeros allowed), an optional extension up to the LF — then
+   exactly that many data bytes and CRLF; the chunk of size 0 ends the body, what follows it (trailer fields, the
+   empty line) is not body.  [dechunk] is the decoder; the limited reader sits ABOVE it, so the limit counts the
+   decoded bytes only: neither the size lines, the extensions, the CRLFs nor the trailers. *)
+Definition is_hex (c : N) : bool :=
+  (is_digit c || ((65 <=? c) && (c <=? 70)) || ((97 <=? c) && (c <=? 102)))%N.
+Definition hex_digit_val (c : N) : N := (if is_digit c then c - 48 else if c <=? 70 then c - 55 else c - 87)%N.
+Fixpoint hex_num (ds : bytes) (acc : N) : N :=
+  match ds with [] => acc | c :: r => hex_num r (16 * acc + hex_digit_val c)%N end.
+Fixpoint span_hex (w : bytes) : bytes * bytes :=
+  match w with
+  | [] => ([], [])
+  | c :: r => if is_hex c then let '(d, t) := span_hex r in (c :: d, t) else ([], w)
+  end.
+Fixpoint skip_line (w : bytes) : bytes :=
+  match w with [] => [] | c :: r => if (c =? 10)%N then r else skip_line r end.
+Fixpoint dechunk (fuel : nat) (w : bytes) : option (list N) :=
+  match fuel with
+  | O => None
+  | S f =>
+    let '(ds, r) := span_hex w in
+    match ds with
+    | [] => None
+    | _ =>
+      let n := N.to_nat (hex_num ds 0) in
+      let r1 := skip_line r in
+      if Nat.eqb n 0 then Some []
+      else if Nat.ltb (length r1) (n + 2) then None
+      else match skipn n r1 with
+           | 13%N :: 10%N :: r2 => option_map (app (firstn n r1)) (dechunk f r2)
+           | _ => None
+           end
+    end
+  end.
+(* the sender's side: any well-formed chunk sequence *)
+Record wchunk := { wc_size : bytes; wc_ext : bytes; wc_data : list N }.
+Definition wf_size_line (size ext : bytes) : Prop :=
+  size <> [] /\ Forall (fun c => is_hex c = true) size /\ Forall (fun c => c <> 10%N) ext /\
+  match ext with [] => True | c :: _ => is_hex c = false end.
+Definition wf_chunk (c : wchunk) : Prop :=
+  wf_size_line (wc_size c) (wc_ext c) /\ hex_num (wc_size c) 0 = N.of_nat (length (wc_data c)) /\ wc_data c <> [].
+Fixpoint enc_chunks (cs : list wchunk) (tail : bytes) : bytes :=
+  match cs with
+  | [] => tail
+  | c :: r => wc_size c ++ wc_ext c ++ 13%N :: 10%N :: wc_data c ++ 13%N :: 10%N :: enc_chunks r tail
+  end.
+(* last chunk: a size line of value 0, then anything (trailer section) *)
+Definition enc_last (size ext trailers : bytes) : bytes := size ++ ext ++ 13%N :: 10%N :: trailers.
+
 (* ---- case type for the correspondence check ---- *)
 Inductive case :=
 | CRead (cs : bool) (table : list (bytes * Z)) (path : bytes) (bodylen : nat) (script : list nat)
@@ -487,7 +537,11 @@ Inductive case :=
 (* a sequence of uploads to ONE running site whose proxy upstream counts failures (max_fails 1, fail_timeout 1h):
    per request (chunked, body length, (status, bytes that reached the backend, prefix ok, sum of the upstream
    hosts' Fails after the request; -1 = not observable)) *)
-| CSiteSeq (kind : N) (limit : Z) (reqs : list (bool * nat * (Z * Z * bool * Z))).
+| CSiteSeq (kind : N) (limit : Z) (reqs : list (bool * nat * (Z * Z * bool * Z)))
+(* the limits middleware over a chunked request parsed by net/http from the given wire bytes (chunk sizes, size-line
+   spellings, extensions, trailers vary), the connection delivering them in pieces; the handler behind it reads to the
+   first error: what it got, the error code, whether the announced trailer arrived after a complete body *)
+| CChunkRead (limit : Z) (wire : bytes) (bodylen : nat) (obs_data : bytes) (obs_err : N) (trailer_ok : bool).
 
 Definition body_of (n : nat) : list N := map (fun i => N.of_nat (i mod 251)) (seq 0 n).
 
@@ -652,6 +706,23 @@ Definition judge (c : case) : N :=
                    end in
       let spec := listener_spec dflt group obs &&
                   match oh3 with None => true | Some (mh, idle) => h3_spec (sv_idle dflt) group mh idle end in
+      verdict agree spec
+  | CChunkRead limit wire bodylen od oe tok =>
+      let body := body_of bodylen in
+      let agree :=
+        match dechunk (S (length wire)) wire with
+        | None => false
+        | Some b =>
+            let m := S (length b) in
+            let '(d, e, _) := read_all (mbr_init limit b [] false) [m; m; m] in
+            beq d od && (rerr_code e =? oe)%N
+        end in
+      (* spec, on the implementation's output and the body the sender framed: decoded bytes only are counted *)
+      let spec :=
+        tok &&
+        (if limit <? Z.of_nat bodylen
+         then (oe =? 2)%N && beq od (firstn (Z.to_nat limit) body)
+         else (oe =? 1)%N && beq od body) in
       verdict agree spec
   | CSiteSeq kind limit reqs =>
       let k := match kind with 0%N => ProxyStream | 1%N => ProxyBuffered | _ => Fastcgi end in
